@@ -1584,3 +1584,51 @@ func c07Fixpoint(rc *RuleCtx) {
 		})
 	}
 }
+
+func init() {
+	register(&Rule{ID: "C07.wrapfile", Floor: 4, Also: []string{"C09", "C12"},
+		Text: "a wrapper file system never hands out a file wrapper without a base file: every *RoFile / *FailFile / *BasePathFile that a method returns is either the typed nil pointer (whose methods answer fs.ErrInvalid) or a value whose base-file field was set from a successful call on the base - an empty wrapper returned next to an error panics in every method the caller may still call on it (Close, Name)",
+		Run:  c07WrapFile})
+}
+
+func c07WrapFile(rc *RuleCtx) {
+	wrappers := map[string]string{"rofs": "RoFile", "failfs": "FailFile", "basepathfs": "BasePathFile"}
+	for pk, typ := range wrappers {
+		for _, f := range rc.C.srcFuncs(pk) {
+			n := 0
+			for _, r := range returnsOf(f) {
+				for _, res := range r.Results {
+					for _, rv := range resolve(res) {
+						al, ok := strip(rv).(*ssa.Alloc)
+						if !ok {
+							continue
+						}
+						nt := namedOf(al.Type())
+						if nt == nil || nt.Obj().Name() != typ {
+							continue
+						}
+						n++
+						cons := fmt.Sprintf("%s returns %s#%d", funcName(f), typ, n)
+						set := false
+						for _, u := range referrersOf(al) {
+							fa, ok := u.(*ssa.FieldAddr)
+							if !ok || fieldName(fa.X.Type(), fa.Field) != "baseFile" {
+								continue
+							}
+							for _, st := range storesTo(fa) {
+								if !isNilConst(st.Val) {
+									set = true
+								}
+							}
+						}
+						if set {
+							rc.good(cons, r.Pos(), "the wrapper carries a base file")
+						} else {
+							rc.bad(cons, r.Pos(), "an empty "+typ+" (no base file) is returned: the methods of the wrapper dereference the base file, so Close / Name / Read on the value returned next to the error panic instead of answering fs.ErrInvalid")
+						}
+					}
+				}
+			}
+		}
+	}
+}
